@@ -541,7 +541,11 @@ pub fn run_check(prop: &dyn Property, tier_s: &str, cfg: &CheckConfig) -> i32 {
                     scenario: sc,
                 };
                 let path = write_replay(cfg, &rf, "-proc");
-                let bin = cfg.bins.iter().find(|(p, _)| *p == profile).map(|(_, b)| b.clone()).unwrap_or(self_bin.clone());
+                let bin = if profile == "natural" {
+                    std::env::var("VERIF_NATURAL_BIN").unwrap_or(self_bin.clone())
+                } else {
+                    cfg.bins.iter().find(|(p, _)| *p == profile).map(|(_, b)| b.clone()).unwrap_or(self_bin.clone())
+                };
                 let outs = observe_in_processes(&bin, &path, 12);
                 let distinct: BTreeSet<&String> = outs.iter().collect();
                 if distinct.len() > 1 {
@@ -684,7 +688,14 @@ pub fn observe_in_processes(bin: &str, path: &str, n: usize) -> Vec<String> {
 /// profile and compared line by line. Returns (index, sub-index) of the first divergence.
 pub fn cross_process_compare(cfg: &CheckConfig, prop: &str, tier: &str, m: u64) -> (u64, Option<(String, u64, usize)>) {
     let mut compared = 0u64;
-    for (profile, bin) in &cfg.bins {
+    // Prefer the "natural" build (no `--cfg fuzzing`): there ahash's process-wide keys are drawn from the OS
+    // per process, as in a shipped binary, so every hash order in the subject differs between the two processes.
+    let natural = std::env::var("VERIF_NATURAL_BIN").ok().filter(|p| std::path::Path::new(p).exists());
+    let bins: Vec<(String, String)> = match natural {
+        Some(p) => vec![("natural".to_string(), p)],
+        None => cfg.bins.clone(),
+    };
+    for (profile, bin) in &bins {
         let chunks = 4u64;
         let per = m.div_ceil(chunks);
         let mut handles = Vec::new();
